@@ -667,6 +667,16 @@ func JoinInt(t, f *Int, gate *Bit, extra Deps) *Int {
 			continue
 		}
 		same = false
+		if t.VID == f.VID && (a.K == BSrc && b.IsConst() || b.K == BSrc && a.IsConst()) {
+			// two refinements of one and the same number: a bit that one path
+			// learned to be constant is still that number's bit
+			if a.K == BSrc {
+				bits[i] = a
+			} else {
+				bits[i] = b
+			}
+			continue
+		}
 		if gate != nil {
 			bits[i] = gateBit(*gate, a, b)
 		} else {
@@ -699,8 +709,11 @@ func JoinInt(t, f *Int, gate *Bit, extra Deps) *Int {
 	if t.HasBase && f.HasBase && t.Base == f.Base && t.Off == f.Off {
 		r.HasBase, r.Base, r.Off = true, t.Base, t.Off
 	}
-	if t.From != nil && f.From != nil && *t.From == *f.From && t.VID == f.VID {
-		r.From = t.From
+	if t.VID == f.VID {
+		r.VID = t.VID
+		if t.From != nil && f.From != nil && *t.From == *f.From {
+			r.From = t.From
+		}
 	}
 	// the hull must not be tightened by gated bits beyond soundness: normalize
 	// only uses known bits, which are sound for both sides.
